@@ -23,6 +23,33 @@ THEOREMS = ["C07_disabled_not_advertised", "C07_structural_value_disables", "C07
 ALTS = [0, 1, "", "zz", None, {"$u": 1}, True, False, {"$a": [1, 2]}, {"$o": {"a": 5, "x": "n"}}, {"$nan": 1}]
 
 
+def _truthy(v):
+    if isinstance(v, dict):
+        return not ("$u" in v or "$nan" in v or "$n0" in v)
+    return bool(v)
+
+
+def pick_alts(cur, f, salt):
+    """two replacement values: one of the opposite truthiness, one of the same truthiness (both != cur);
+    numbers / strings stay indexes / keys where possible so that index expressions keep a meaning"""
+    import zlib
+    h = zlib.crc32(f.encode()) + salt
+    cands = [a for a in ALTS if a != cur]
+    rot = cands[h % len(cands):] + cands[:h % len(cands)]
+    flip = [a for a in rot if _truthy(a) != _truthy(cur)]
+    same = [a for a in rot if _truthy(a) == _truthy(cur)]
+    out = []
+    if flip:
+        out.append(flip[0])
+    if same:
+        out.append(same[0])
+    if isinstance(cur, (int, float)) and not isinstance(cur, bool):
+        out.append(cur + 1)
+    if isinstance(cur, str):
+        out.append({"a": "x", "x": "a", "b": "a"}.get(cur, cur + "2"))
+    return out
+
+
 def run(res):
     ok, what = (True, "")
     if THEOREMS:
@@ -47,7 +74,7 @@ def run(res):
     # 2. behaviour of the advertised updaters
     found_analysis = found
     found = 0
-    results = behave.get_results(res.tier, res.seed, "behave")
+    results = behave.get_results(res.tier, res.seed, "behave") + behave.get_results(res.tier, res.seed, "behave_matrix")
     jobs = []
     meta = []
     for rr in results:
@@ -58,8 +85,7 @@ def run(res):
         B = run0.get("B") or {}
         d0 = j["datas"][0]
         for k, f in enumerate(sorted(B)):
-            for alt_i in range(2):
-                alt = ALTS[(hash(f) + k + alt_i * 5 + len(j["src"])) % len(ALTS)]
+            for alt in pick_alts(d0["$o"].get(f), f, k + len(j["src"])):
                 d1 = copy.deepcopy(d0)
                 d1["$o"][f] = alt
                 base = {"op": "run", "bundle": j["bundle"], "path": j["path"], "slotValues": j.get("slotValues")}
